@@ -248,11 +248,16 @@ from kskm.tools.ksrsigner import ksrsigner
 
 tok = ceremony.token_with([KS["ksk_current"]])
 emu.install(tok)
-for trial in range(2 * SCALE):
+for trial in range(3 * SCALE):
     ksr_path, skr_path = os.path.join(tmpd, "in.xml"), os.path.join(tmpd, f"out-{trial}.xml")
     cfg = ceremony.make_config({"ksk_current": ceremony.ksk_def(KS["ksk_current"])}, {"normal": {i: {"publish": "ksk_current", "sign": "ksk_current"} for i in range(1, 10)}},
                                request_policy={"rsa_approved_key_sizes": [1024]})
     first, later = (xmlA, [xmlB]) if trial % 2 == 0 else (xmlB, [xmlA])
+    # what is at the output path before the run is not part of what is written: nothing, a shorter file, a much longer one
+    pre_existing = [None, b"<old/>\n", b"<!-- an earlier, longer SKR -->\n" + b"x" * 200000][trial % 3]
+    if pre_existing is not None:
+        with open(skr_path, "wb") as f:
+            f.write(pre_existing)
     FL.arm(ksr_path, first, later)
     out = io.StringIO()
     try:
